@@ -27,6 +27,10 @@ Marker(sort) ==
 CalleeOfType(f1, g) == f1.out = "T" /\ g.k \in {"E.FunctionCall", "E.NamedFunctionCall", "E.FunctionCallBlock"} /\ g.hs = 1
 
 LevelATrees == {ToFile(Plug(f, Marker(f.in)), f.out) : f \in AllFrames}
+\* every expression position also holds children of OTHER kinds (a literal, a negative literal, a call, a parenthesised
+\* increment): how a position is searched must not depend on what kind of node stands in it
+AltMarkers == {Num("7"), Un("E.UnaryMinus", Num("1")), Call(Var("g"), <<ME>>), Paren(ME), Str("s"), Index(Var("t"), ME)}
+LevelAAltTrees == {ToFile(Plug(f, m), f.out) : f \in {g \in AllFrames : g.in = "E"}, m \in AltMarkers}
 \* (parameterised so that TLC does not pre-evaluate it when LevelB is off)
 LevelBTrees(dummy) == UNION {{ToFile(Plug(f2, Plug(f1, Marker(f1.in))), f2.out) :
                           f2 \in {g \in AllFrames : Fits(f1.out, g.in) /\ ~CalleeOfType(f1, g)}} : f1 \in AllFrames}
@@ -37,7 +41,7 @@ LateDirectiveTrees ==
     {N("SU.SourceUnit", A0, <<<<Item0("First"), LatePragma("^0.8.0"), Item0("Second"), LatePragma("0.8.17")>>>>),
      N("SU.SourceUnit", A0, <<<<PragmaNode, Item0("First"), LatePragma("^0.8.1"), Item0("Second")>>>>),
      N("SU.SourceUnit", A0, <<<<Item0("Only"), LatePragma("^0.8.2")>>>>)}
-Trees == LevelATrees \cup LateDirectiveTrees \cup DeepTrees(64, ME, MS) \cup (IF LevelB THEN LevelBTrees(0) ELSE {})
+Trees == LevelATrees \cup LevelAAltTrees \cup LateDirectiveTrees \cup DeepTrees(64, ME, MS) \cup (IF LevelB THEN LevelBTrees(0) ELSE {})
 
 TargetSets == {AllTargets, {"PostIncrement"}, {"Expression", "VariableDefinition", "Block"}}
 
